@@ -678,10 +678,12 @@ BROKER_ASSUME = ["sequential regime: one stimulus at a time, broker reaction obs
 def broker_check(pid, tier, plan, own, rule, extra=None):
     v = Verdict(pid, tier)
     thorough = tier == "thorough"
-    for spec, mode, dq, dt, auth in plan:
+    for item in plan:
+        spec, mode, dq, dt, auth = item[:5]
+        maxqos = item[5] if len(item) > 5 else 2
         d = dt if thorough else dq
-        behs = broker_behaviours(v, spec, d, mode)
-        broker_replay(v, pid, behs, "%s(%s,%d)" % (spec, mode, d), auth=auth, own_tags=own)
+        behs = broker_behaviours(v, spec, d, mode, maxqos=maxqos)
+        broker_replay(v, pid, behs, "%s(%s,%d%s)" % (spec, mode, d, "" if maxqos == 2 else ",maxqos=%d" % maxqos), auth=auth, maxqos=maxqos, own_tags=own)
     if extra:
         extra(v)
     v.cov["rule"] = rule + " distinct_nontrivial = behaviours replayed (each is a distinct operation sequence; cover mode: the maximal witnesses of one-witness-per-transition)."
@@ -692,7 +694,7 @@ def broker_check(pid, tier, plan, own, rule, extra=None):
 
 @check("C01")
 def c01(tier):
-    return broker_check("C01", tier, [("RoutingSpec", "cover", 3, 4, "mockSuccess"), ("RoutingSpec", "paths", 2, 3, "mockSuccess")], {"C01"},
+    return broker_check("C01", tier, [("RoutingSpec", "cover", 3, 4, "mockSuccess"), ("RoutingSpec", "paths", 2, 3, "mockSuccess"), ("RoutingSpec", "paths", 2, 2, "mockSuccess", 1)], {"C01"},
                         "Broker specification, configuration routing: 2 network clients + 1 in-process subscriber, filters {a/b,a/+,a/#,#,+/b}, names "
                         "{a/b,a,a/b/c,c}, publish QoS x granted QoS in {0,1,2}^2, payloads tiny/empty/big; transition cover and all paths; after every "
                         "step the PUBLISH packets on every connection (topic, payload bytes, QoS, retain flag) are compared with the specification's bag.")
@@ -707,7 +709,7 @@ def c02(tier):
 
 @check("C07")
 def c07(tier):
-    return broker_check("C07", tier, [("SubsSpec", "cover", 5, 6, "mockSuccess"), ("SubsSpec", "paths", 2, 3, "mockSuccess")], {"C07", "C01", "C08"},
+    return broker_check("C07", tier, [("SubsSpec", "cover", 5, 6, "mockSuccess"), ("SubsSpec", "paths", 2, 3, "mockSuccess"), ("SubsSpec", "cover", 4, 5, "mockSuccess", 1)], {"C07", "C01", "C08"},
                         "configuration subs: SUBSCRIBE requests with 1..9 filters incl. invalid filters and QoS 3, two packet ids, UNSUBSCRIBE lists of 1..9, "
                         "probe publishes from a second client; SUBACK/UNSUBACK bytes and subsequent deliveries compared.")
 
